@@ -136,8 +136,14 @@ var _ Event = &StateEvent{}
 
 type StateEvent struct{ gitlab.StateEvent }
 
-func (s StateEvent) ID() string           { return fmt.Sprintf("%d", s.StateEvent.ID) }
-func (s StateEvent) UserID() int          { return s.User.ID }
+func (s StateEvent) ID() string { return fmt.Sprintf("%d", s.StateEvent.ID) }
+func (s StateEvent) UserID() int {
+	if s.User == nil {
+		// the user was deleted: same as what a label event gives in that case
+		return 0
+	}
+	return s.User.ID
+}
 func (s StateEvent) CreatedAt() time.Time { return *s.StateEvent.CreatedAt }
 func (s StateEvent) Kind() EventKind {
 	switch s.State {
